@@ -74,15 +74,17 @@ func (t *SafeState) merge(s sm.State, r Role) {
 		return
 	}
 
+	// The incoming state may be stale by the time we get here (the child read it before another
+	// goroutine updated a sibling), so whenever there are children we recompute from their current states.
+	allRoles := r.GetRoles()
 	switch {
+	case len(allRoles) > 0:
+		t.state = aggregateState(allRoles)
 	case s == sm.MIXED && t.state != sm.ERROR:
 		t.state = sm.MIXED
-		return
 	case s == sm.ERROR:
 		t.state = sm.ERROR
-		return
 	default:
-		allRoles := r.GetRoles()
 		t.state = aggregateState(allRoles)
 	}
 }
